@@ -248,3 +248,8 @@ def check(v, tier):
                     'pairs of groups on the catalogue shapes, stand-alone companions) is expanded: inputs whose traits are all enabled must expand exactly as in the all-features '
                     'build, the others must be refused naming a disabled trait as unsupported; non-trivial = subset with both kinds of input',
                     {'bounds': {'tier': tier}})
+def replay(path):
+    """a C18 violation is a schedule / configuration of the whole exploration: the replay re-runs the quick exploration on the current tree"""
+    import os
+    os.environ['VERIF_EVIDENCE_DIR'] = os.path.join(core.BUILD, 'replay-evidence')
+    return check(core.Verdict('C18', 'quick', 0), 'quick')
